@@ -1,2 +1,152 @@
-(* C13 -- stub while the models are validated *)
-From DA Require Import Model.PyExpr Model.ExprPrint Model.ExprParse Model.ExprSem.
+(* C13 -- Expression text is parsed with Python's precedence and meaning.
+   Statements about the hand models Model/PyExpr.v (expression objects, tokens), Model/ExprParse.v (lark tree shapes,
+   the parser model lark_of, the transcription walk of _walk_lark_tree with the Term methods it reaches),
+   Model/ExprSem.v (py_meaning: Python's meaning of a parse tree; eval: the DSL's meaning of an expression object),
+   Model/ExprPrint.v (to_python), Model/ExprAst.v (ASTs with explicit parentheses, unparse, strip) and
+   Model/ExprRoundtrip.v (printable, the guards).  They are tied to /repo by correspondence on every run.
+
+   FULL STATEMENT of the first half -- "for every tree t: parse_tree c dd t = Ok e -> py_meaning t = Some v ->
+   eval e = Some v" -- is FALSE for the code as it is (comparison chains): C13_parse_meaning_refuted.  It is proved
+   for every tree without a chain, and with no guard on the tree for a walker that rejects chains
+   (reject_chains c = true: the proposed fix; the check reads which of the two the running code is).
+
+   FULL STATEMENT of the second half -- "parse a text, print the result, parse again: an equal tree" -- is FALSE
+   for the code as it is (the five theorems C13_print_parse_roundtrip_refuted_...); it is proved under the guards src_ok (NAME tokens
+   are not operator texts; no call of a dunder method written in the text; callees are NAME or expr.NAME) and
+   expr_kf_ok (no infinite constant, no list of fewer than two items unless it is one literal token, no -0.0 as the
+   base of a power), each of which is a listed known finding with its witness below. *)
+From Coq Require Import List Bool String Ascii ZArith NArith QArith Arith.
+Import ListNotations.
+From DA Require Import Model.PyExpr Model.ExprPrint Model.ExprParse Model.ExprSem Model.ExprAst Model.ExprRoundtrip
+  Proofs.ExprParseP4 Proofs.ExprParseP9 Proofs.ExprParseP19 Proofs.ExprParseP21.
+Local Close Scope Q_scope.
+Local Open Scope string_scope.
+Local Open Scope list_scope.
+
+(* ------------------------------------------------------------------ 1. meaning *)
+(* for EVERY lark tree, every set of known names, every column set, every interpretation fsem of the method
+   names and every operand assignment: if the walker accepts the tree and Python's reading of the tree has a
+   value on the common domain, the expression object evaluates to exactly that value *)
+Theorem C13_parse_meaning_partial :
+  forall (c : cfg) (dd : list string) (fsem : fsem_t) (en : env) (t : ltree) (e : expr) (v : pval),
+  reject_chains c = true \/ no_chain t = true ->
+  parse_tree c dd t = Ok e -> py_meaning fsem en t = Some v -> eval fsem en e = Some v.
+Proof. exact parse_tree_meaning. Qed.
+Print Assumptions C13_parse_meaning_partial.
+
+(* the same for the walker proper (sub-trees that are lists / dicts included) *)
+Theorem C13_walk_meaning_partial :
+  forall (c : cfg) (dd : list string) (fsem : fsem_t) (en : env) (t : ltree) (e : expr) (v : pval),
+  reject_chains c = true \/ no_chain t = true ->
+  walk c dd t = Ok e -> py_meaning fsem en t = Some v -> eval fsem en e = Some v.
+Proof. exact walk_meaning. Qed.
+Print Assumptions C13_walk_meaning_partial.
+
+(* 'a < b < c' with a = -3, b = -3, c = 5: Python says False, the tree built by the walker says True *)
+Theorem C13_parse_meaning_refuted :
+  reject_chains chain_cfg = false /\ lark_of chain_toks = Some chain_tree /\
+  parse_tree chain_cfg ["a"; "b"; "c"] chain_tree = Ok chain_expr /\
+  py_meaning no_fsem chain_env chain_tree = Some (PBool false) /\
+  eval no_fsem chain_env chain_expr = Some (PBool true).
+Proof. exact chain_refuted. Qed.
+Print Assumptions C13_parse_meaning_refuted.
+
+(* ------------------------------------------------------------------ 2. precedence *)
+(* for EVERY expression AST of the fragment, in EVERY parenthesisation that respects the grammar's levels
+   (necessary and redundant parentheses alike): its text parses to exactly the tree of the AST -- binary operators
+   fold to the left within their level, ** to the right and above a unary minus on its left, not / and / or and
+   comparisons at their levels, call and attribute trailers, displays *)
+Theorem C13_precedence :
+  forall d : dtree, wfn d = true -> lark_of (unparse d) = Some (strip d).
+Proof. exact lark_of_unparse. Qed.
+Print Assumptions C13_precedence.
+
+(* ------------------------------------------------------------------ 3. round trip *)
+(* every printable expression object is read back from its own text as the SAME object *)
+Theorem C13_printable_roundtrip :
+  forall (c : cfg) (dd : list string) (e : expr),
+  printable c dd e = true -> is_term e = true ->
+  parse c dd (to_python e) = Ok e /\ is_equal e e = true.
+Proof. exact printable_roundtrip_eq. Qed.
+Print Assumptions C13_printable_roundtrip.
+
+(* whatever the walker builds from the tree of a source AST is printable *)
+Theorem C13_parsed_is_printable :
+  forall (c : cfg) (dd : list string) (d : dtree) (e : expr),
+  wfn d = true -> src_ok d = true -> walk c dd (strip d) = Ok e -> expr_kf_ok e = true ->
+  printable c dd e = true.
+Proof. exact built_printable. Qed.
+Print Assumptions C13_parsed_is_printable.
+
+(* parse the text of a source AST, print the result, parse again: the same object, is_equal to the first *)
+Theorem C13_print_parse_roundtrip_partial :
+  forall (c : cfg) (dd : list string) (d : dtree) (e : expr),
+  wfn d = true -> src_ok d = true ->
+  parse c dd (unparse d) = Ok e -> expr_kf_ok e = true ->
+  exists e', parse c dd (to_python e) = Ok e' /\ e' = e /\ is_equal e e' = true.
+Proof. exact roundtrip_of_source_eq. Qed.
+Print Assumptions C13_print_parse_roundtrip_partial.
+
+(* the witnesses of the known findings, each violating exactly one guard *)
+(* (-0.0) ** 2  prints as  -0.0 ** 2  which is read back as  -(0.0 ** 2) *)
+Theorem C13_print_parse_roundtrip_refuted_negative_zero :
+  wfn negzero_src = true /\ src_ok negzero_src = true /\
+  parse kcfg kdd (unparse negzero_src) = Ok negzero_e /\ parse kcfg kdd (to_python negzero_e) = Ok negzero_e' /\
+  is_equal negzero_e negzero_e' = false /\ expr_kf_ok negzero_e = false.
+Proof. exact negzero_refuted. Qed.
+Print Assumptions C13_print_parse_roundtrip_refuted_negative_zero.
+
+(* 1e400 + a  prints as  inf + a  which does not parse *)
+Theorem C13_print_parse_roundtrip_refuted_infinity :
+  wfn inf_src = true /\ src_ok inf_src = true /\
+  parse kcfg kdd (unparse inf_src) = Ok inf_e /\ parse kcfg kdd (to_python inf_e) = Err /\ expr_kf_ok inf_e = false.
+Proof. exact inf_refuted. Qed.
+Print Assumptions C13_print_parse_roundtrip_refuted_infinity.
+
+(* a.is_in([-1,])  prints as  a.is_in([-1])  which does not parse;  a.is_in([True]) is parsed to the EMPTY list *)
+Theorem C13_print_parse_roundtrip_refuted_short_list :
+  wfn short_list_src = true /\ src_ok short_list_src = true /\
+  parse kcfg kdd (unparse short_list_src) = Ok short_list_e /\ parse kcfg kdd (to_python short_list_e) = Err /\
+  expr_kf_ok short_list_e = false /\
+  wfn true_list_src = true /\ src_ok true_list_src = true /\
+  parse kcfg kdd (unparse true_list_src) = Ok (EOp "is_in" false true None [ECol "a"; EList []]).
+Proof. exact short_list_refuted. Qed.
+Print Assumptions C13_print_parse_roundtrip_refuted_short_list.
+
+(* (+p)(a, c)  is accepted as the function "+" and prints as  +(a, c)  which does not parse *)
+Theorem C13_print_parse_roundtrip_refuted_called_operator :
+  wfn called_operator_src = true /\ src_ok called_operator_src = false /\
+  parse kcfg kdd (unparse called_operator_src) = Ok called_operator_e /\ expr_kf_ok called_operator_e = true /\
+  parse kcfg kdd (to_python called_operator_e) = Err.
+Proof. exact called_operator_refuted. Qed.
+Print Assumptions C13_print_parse_roundtrip_refuted_called_operator.
+
+(* a.__and__(b)  builds the bitwise expression a & b, whose text the walker rejects *)
+Theorem C13_print_parse_roundtrip_refuted_dunder_call :
+  wfn dunder_src = true /\ src_ok dunder_src = false /\
+  parse kcfg kdd (unparse dunder_src) = Ok dunder_e /\ expr_kf_ok dunder_e = true /\
+  parse kcfg kdd (to_python dunder_e) = Err.
+Proof. exact dunder_refuted. Qed.
+Print Assumptions C13_print_parse_roundtrip_refuted_dunder_call.
+
+(* ------------------------------------------------------------------ non-vacuity *)
+(* the guards of every theorem above hold of   not p and -a ** 2 + b.abs() * (c - 1) < 3   with a = 3, b = -2, c = 5,
+   p = False: well-formed, no chain, parsed to sample_e, printable, both meanings are True *)
+Example C13_sample_guards :
+  wfn sample_src = true /\ src_ok sample_src = true /\ no_chain (strip sample_src) = true /\
+  parse sample_cfg kdd (unparse sample_src) = Ok sample_e /\ expr_kf_ok sample_e = true /\
+  printable sample_cfg kdd sample_e = true /\ is_term sample_e = true /\
+  py_meaning concrete_fsem sample_env (strip sample_src) = Some (PBool true) /\
+  eval concrete_fsem sample_env sample_e = Some (PBool true).
+Proof. exact sample_guards. Qed.
+
+(* left association of -, right association of ** above a unary minus *)
+Example C13_sample_trees :
+  lark_of [TName "a"; TSym "-"; TName "b"; TSym "-"; TName "c"]
+    = Some (LNode "arith_expr" [LNode "var" [LTok (TName "a")]; LTok (TSym "-"); LNode "var" [LTok (TName "b")];
+                                LTok (TSym "-"); LNode "var" [LTok (TName "c")]])
+  /\ lark_of [TSym "-"; TName "a"; TSym "**"; TName "b"; TSym "**"; TName "c"]
+    = Some (LNode "factor" [LTok (TSym "-");
+              LNode "power" [LNode "var" [LTok (TName "a")];
+                             LNode "power" [LNode "var" [LTok (TName "b")]; LNode "var" [LTok (TName "c")]]]]).
+Proof. exact sample_trees. Qed.
